@@ -86,6 +86,8 @@ enum What {
     Oper(usize, usize, usize),  // operator "-" on enum: function entity, literal a, literal b
     ResFunc(usize),
     Label(usize),
+    PhysType(usize, usize),
+    PhysUnit(usize, usize),
 }
 
 #[derive(Clone)]
@@ -110,13 +112,14 @@ const INT_SITES_CONC: &[&str] = &[
     "cassert_report", "cpcall_actual", "call_arg", "generic_map_actual", "port_map_actual", "generate_range",
     "if_generate_cond", "case_generate_expr", "block_guard", "block_generic_map", "block_port_map", "aggregate_value",
     "aggregate_choice", "index", "slice_range", "qualified_operand", "conversion_operand", "unary_operand",
-    "binary_operand", "paren_operand", "after_value", "csa_target",
+    "binary_operand", "paren_operand", "after_value", "csa_target", "if_generate_elsif_cond", "case_generate_choice", "generate_discrete_range",
 ];
 const INT_SITES_SEQ: &[&str] = &[
     "vassign_value", "sassign_value", "if_cond", "elsif_cond", "case_expr", "case_choice", "loop_range", "while_cond",
     "exit_cond", "next_cond", "wait_until", "assert_cond", "report_expr", "severity_site", "return_expr", "pcall_actual",
     "assoc_named_actual", "vassign_target", "cond_vassign_cond", "sel_vassign_expr", "allocator_qualified",
-    "loop_discrete_range_constraint", "call_arg_seq", "aggregate_seq", "attr_image_arg",
+    "loop_discrete_range_constraint", "call_arg_seq", "aggregate_seq", "attr_image_arg", "seq_cond_sassign", "seq_sel_sassign",
+    "force_value", "sel_vassign_choice", "if_else_branch_value",
 ];
 const INT_SITES_DECL: &[&str] = &[
     "default_value", "subtype_range", "subtype_index_constraint", "alias_name", "attr_spec_entity", "param_default",
@@ -393,6 +396,14 @@ impl Gen {
         ctxs.push(1);
         ctxs.push(1);
         ctxs.push(2);
+        if stat && self.has_conc(r) && self.rng.chance(1, 3) {
+            const STATIC_CONC: &[&str] = &[
+                "sel_choice", "generic_map_actual", "generate_range", "if_generate_cond", "case_generate_expr", "block_generic_map",
+                "aggregate_choice", "if_generate_elsif_cond", "case_generate_choice", "generate_discrete_range",
+            ];
+            let site = *self.rng.pick(STATIC_CONC);
+            return self.int_site_conc(r, site, e, stat, sig_target);
+        }
         let ctx = *self.rng.pick(&ctxs);
         match ctx {
             0 => {
@@ -480,6 +491,28 @@ impl Gen {
             "block_guard" => {
                 let l = self.label(r, "bl");
                 format!("  {} : block ({} > 0)\n  begin\n  end block;\n", self.d(l), x)
+            }
+            "if_generate_elsif_cond" => {
+                if !stat {
+                    return false;
+                }
+                let l = self.label(r, "gl");
+                format!("  {} : if false generate\n  elsif {} > 0 generate\n  else generate\n  end generate;\n", self.d(l), x)
+            }
+            "case_generate_choice" => {
+                if !stat {
+                    return false;
+                }
+                let l = self.label(r, "gl");
+                format!("  {} : case 1 generate\n    when {} =>\n    when others =>\n  end generate;\n", self.d(l), x)
+            }
+            "generate_discrete_range" => {
+                if !stat {
+                    return false;
+                }
+                let l = self.label(r, "gl");
+                let j = self.ent("j", "loop", Some(l), None, false);
+                format!("  {} : for {} in integer range 0 to {} generate\n  end generate;\n", self.d(l), self.d(j), x)
             }
             "block_generic_map" => {
                 if !stat {
@@ -571,6 +604,9 @@ impl Gen {
         if func_region && matches!(site, "wait_until" | "sassign_value") {
             return false;
         }
+        if site == "return_expr" && !func_region {
+            return false;
+        }
         let in_process_like = matches!(self.regions[r].kind, Rk::Process | Rk::Subprog);
         // helpers must be declared in a region that is visible: use the region itself when it is sequential,
         // otherwise the enclosing declarative region r
@@ -602,7 +638,13 @@ impl Gen {
             }
             harr = Some(self.helper_arr_sig(r));
         }
-        let sig_sink = if site == "sassign_value" {
+        if site == "sel_vassign_choice" && !stat {
+            return false;
+        }
+        if func_region && matches!(site, "seq_cond_sassign" | "seq_sel_sassign" | "force_value") {
+            return false;
+        }
+        let sig_sink = if matches!(site, "sassign_value" | "seq_cond_sassign" | "seq_sel_sassign" | "force_value") {
             // needs a signal visible from r: only when r itself can declare signals
             if self.allows_signals(r) && self.regions[r].kind != Rk::Entity && self.regions[r].kind != Rk::PkgHead {
                 Some(self.conc_sink(r))
@@ -648,7 +690,7 @@ impl Gen {
                 "assert_cond" => format!("    assert {} > 0;\n", x),
                 "report_expr" => format!("    report integer'image({});\n", x),
                 "severity_site" => format!("    report \"m\" severity severity_level'val({});\n", x),
-                "return_expr" => format!("    {} := {};\n", kw, x), // replaced for function regions below
+                "return_expr" => format!("    if {} > 5 then\n      return {};\n    end if;\n", kr, x),
                 "pcall_actual" => format!("    {}({});\n", g.r(hp.unwrap().0, "helper_call"), x),
                 "assoc_named_actual" => format!("    {}({} => {});\n", g.r(hp.unwrap().0, "helper_call"), g.r(hp.unwrap().1, "assoc_formal"), x),
                 "vassign_target" => format!("    {} := 1;\n", (var_target.unwrap())(g, &site_s)),
@@ -665,6 +707,11 @@ impl Gen {
                     }
                 }
                 "attr_image_arg" => format!("    report integer'image({});\n", x),
+                "seq_cond_sassign" => format!("    {} <= 1 when {} > 0 else 2;\n", g.r(sig_sink.unwrap(), "sink_target"), x),
+                "seq_sel_sassign" => format!("    with {} select {} <= 1 when 0, 2 when others;\n", x, g.r(sig_sink.unwrap(), "sink_target")),
+                "force_value" => format!("    {} <= force {};\n", g.r(sig_sink.unwrap(), "sink_target"), x),
+                "sel_vassign_choice" => format!("    with {} select {} := 1 when {}, 2 when others;\n", kr, kw, x),
+                "if_else_branch_value" => format!("    if {} > 0 then\n      null;\n    else\n      {} := {};\n    end if;\n", kr, kw, x),
                 _ => unreachable!(),
             }
         };
